@@ -197,6 +197,22 @@ def _gen(rng, tier):
             yield dict(deps=deps, saving=True)
             yield dict(deps=deps, saving=False)
             yield dict(deps=deps, saving=True, mixed=True)
+    # a dependency that is NOT the pacemaker runs out in the middle of the run (the pacemaker's first chunk ends earlier, but the
+    # pacemaker goes on for longer), and a longer dependency that goes on - after a zero-duration chunk - with rows once the
+    # pacemaker has ended: in both situations rows can never be delivered
+    for kinds in (("k0", "k1"), ("k0", "k0")):
+        same = kinds[0] == kinds[1]
+        d_pace = dict(kind=kinds[0], rows=[[0, 1], [4, 6]], cuts=[0, 3, T])
+        d_runs_out = dict(kind=kinds[1], rows=[[0, 1]], cuts=[0, 4])
+        d_ends = dict(kind=kinds[0], rows=[[0, 1]], cuts=[0, 3])
+        d_goes_on = dict(kind=kinds[1], rows=[[0, 1], [4, 5]], cuts=[0, 3, 3, T])
+        for pair in ((d_pace, d_runs_out), (d_ends, d_goes_on)):
+            if same and pair[0]["rows"] != pair[1]["rows"]:
+                pair = (dict(pair[0], kind="k0"), dict(pair[1], kind="k1"), dict(pair[0], kind="k0"))
+            for deps in (list(pair), list(pair)[::-1]):
+                yield dict(deps=deps, saving=True)
+                yield dict(deps=deps, saving=True, mixed=True)
+                yield dict(deps=deps, saving=False)
     # per-chunk processing of a plugin whose compute takes chunk_i (one dependency, consecutive chunk numbers not starting at 0)
     for rows, cuts in (([[0, 1], [1, 3], [4, 5], [5, 6]], [0, 1, 3, 5, 6]), ([[0, 2], [2, 3], [3, 4]], [0, 2, 3, 4, 6])):
         for pc in ([1], [1, 2], [2, 3], [0, 1], [3]):
